@@ -538,3 +538,19 @@ PROPS["C17"]["explanation"] = PROPS["C17"]["explanation"].replace(
 PROPS["C17"]["statement_coverage"] = ("Orswot and LWWReg: full statement for single-member adds; add_all: false on the pinned tree (known finding KF-C17-add-all-validate-merge); "
                                       "Map: exact verdict proved for every value type, correct use accepted at key level for every value type and in full for Map<K,MVReg>; nested Orswot values inherit the add_all finding")
 MANIFEST_TEXT["C17"]["text"] = MANIFEST_TEXT["C17"]["text"].replace("LWWReg marker conflicts exact.", "LWWReg marker conflicts exact. Map::validate_merge: exact verdict for every value type, its dot clause proved equal to Orswot::validate_merge on the keys, never firing between derivable states (one key per dot); Map<K,MVReg> accepts all derivable pairs.")
+
+# --------------------------------------------------------------------------------------------
+# Map nested contents: the region where they provably converge (op-only histories without key removes) – Props/C05Nested.lean
+# --------------------------------------------------------------------------------------------
+_NESTED = ["Crdt.C05." + t for t in ["reachUp_toReach", "deferred_stays_empty", "dedup_gate_iff", "nested_eq_fold", "get_eq_fold", "nested_reach", "nested_converge",
+                                      "nested_converge_equiv", "nested_converge_orderfree", "nested_converge_orswot", "nested_orswot_reach", "nested_converge_mvreg",
+                                      "Example.outside_region_diverges", "Example.dotsUnique_needed"]]
+for _pid in ("C01", "C05"):
+    PROPS[_pid]["lean_targets"] = PROPS[_pid]["lean_targets"] + ["CrdtModel.Props.C05Nested"]
+    PROPS[_pid]["required_theorems"] = PROPS[_pid]["required_theorems"] + _NESTED
+    PROPS[_pid]["explanation"] += (" Nested contents (Props/C05Nested.lean): in op-only histories without key removes (ReachUp) the dedup gate fires exactly on re-delivered dots, the nested value under a key IS the fold of "
+                                   "that key's nested ops in delivery order (nested_eq_fold, any value type), hence a derivable state of the value type's own representation system, and replicas that delivered the same updates of a key hold equal "
+                                   "nested values (nested_converge; instances nested Orswot, nested MVReg up to Vec order, order-free types). Outside that region the statement is false on the pinned tree (outside_region_diverges, kernel-checked; known findings).")
+PROPS["C05"]["statement_coverage"] = ("key-level statement proved in full for every value type and depth; nested contents: proved for op-only histories without key removes (nested_eq_fold / nested_converge) and, for a key-remove step, "
+                                      "locally (rm_step_value_partial); the global nested statement is false on the pinned tree (known findings KF-C05-*)")
+PROPS["C01"]["statement_coverage"] = PROPS["C01"]["statement_coverage"].replace("Map nested contents false on the pinned tree (known findings)", "Map nested contents: proved for histories without key removes (C05.nested_converge), false on the pinned tree once key removes are involved (known findings)")
